@@ -498,6 +498,7 @@ def finish(report, prog, level, t0, seed, meta):
         # floors guard against a vacuous pass; a run that already reports a
         # violation is not a pass
         report.check_floors()
+    report.rc = 1 if viol else 0
     n_ob = len(report.obs)
     n_ok = sum(1 for o in report.obs if o.status == 'ok')
     rules = {}
